@@ -325,16 +325,9 @@ def f(a, b, x, s, flag, xs, tp, n):
     v1 = a < T('n', b) < T('k', c) != 7
     return (v0, v1)
 ''', [A, B])),
-]
-
-OPEN = [
- {'property': 'C19', 'key': 'binding-of-unknown-type-keeps-previous-type', 'status': 'open',
-  'what': "a binding whose type the inference does not know (aug-assignment, for-loop target, assignment or unpacking of a value the "
-          "resolver reports as unknown) leaves the entry the symbol had before in the type map, so later reads are annotated with the type of "
-          "an older binding: a wrong set instead of nothing. Not repaired: the type map has no element for 'unknown' (an absent key also means "
-          "'not assigned yet' and joins are unions over present keys), so a sound repair changes the lattice and the join of the "
-          "analysis, which is more than a local patch.",
-  'witness': {'src': TY_HEADER + '''
+ ('C19', 'binding-of-unknown-type-keeps-previous-type', '261dc6a',
+  "a binding whose type the inference does not know (aug-assignment, for-loop target, assignment or unpacking of a value the resolver reports as unknown) left the entry the symbol had before in the type map: later reads were annotated with the type of an older binding, and at joins an untyped binding on one path was outvoted by a typed one on another",
+  {'src': TY_HEADER + '''
 def f(a, b, x, s, flag, xs, tp, n):
     v0 = 1
     v0 += 0.5
@@ -343,25 +336,55 @@ def f(a, b, x, s, flag, xs, tp, n):
         u0 = v1
     v2 = 1
     v2 = ext_u('q')
-    return (v0, v1, v2)
-''', 'mode': 'hostile'}},
- {'property': 'C19', 'key': 'rebinding-by-local-function-not-applied-to-caller', 'status': 'open',
-  'what': "a local function that rebinds a variable of the enclosing function through nonlocal with another type: after the call the "
-          "enclosing function still annotates reads of the variable with the old type, and the CLOSURE_TYPES recorded for later calls "
-          "lack the new type. Side effects are only taken from Resolver.res_call, which is consulted for external functions; calls to "
-          "local functions go through _resolve_typed_callable, which returns no side effects. Not repaired: needs the set of types each "
-          "local function may leave in each nonlocal (an inter-procedural summary iterated to a fixed point together with the callers).",
-  'witness': {'src': TY_HEADER + '''
+    if flag:
+        v3 = ext_u(1.5)
+    else:
+        v3 = 'z'
+    return (v0, v1, v2, v3)
+''', 'mode': 'hostile'}),
+ ('C19', 'rebinding-by-local-function-not-applied-to-caller', 'd2b47e3',
+  "after a call of a local function that rebinds a variable of the enclosing function through nonlocal with another type, the enclosing function still annotated reads with the old type and the CLOSURE_TYPES recorded for later calls lacked the new one (side effects were only taken from Resolver.res_call, i.e. for external functions)",
+  {'src': TY_HEADER + '''
 def f(a, b, x, s, flag, xs, tp, n):
     v0 = 1
+    v1 = 2
     def g1(p):
         nonlocal v0
         v0 = 'a'
         return p
+    def g2(p):
+        u2 = g1(p)
+        def g3(q):
+            nonlocal v1
+            v1 = 0.5
+            return q
+        return g3(p)
     u0 = g1(1)
     g1(2)
-    return (v0, u0)
-''', 'mode': 'hostile'}},
+    w = v0
+    u1 = g2(3)
+    return (v0, v1, u0, u1, w)
+''', 'mode': 'hostile'}),
+ ('C19', 'callee-analysed-before-its-local-callers', 'b5ea8fa',
+  "local functions were analysed once in definition order: a local function called from another local function defined after it kept, for its reads of captured variables, only the types seen at its direct call sites",
+  {'src': TY_HEADER + '''
+def f(a, b, x, s, flag, xs, tp, n):
+    v2 = a
+    def g1(p: int):
+        w0 = ext_s(v2)
+        return w0
+    def g2(p: int):
+        u2 = g1(1)
+        return u2
+    g2(n)
+    if flag:
+        u0, v2 = tp
+        v1 = g1(2)
+    return (v2,)
+''', 'mode': 'hostile'}),
+]
+
+OPEN = [
  {'property': 'C06', 'key': 'definitions-do-not-cross-function-boundaries', 'status': 'open',
   'what': "definitions do not flow between a function and the functions nested in it: a read of an enclosing variable inside a nested "
           "function has an empty DEFINITIONS annotation, and a rebinding made by a nested function through nonlocal is not among the "
